@@ -1,6 +1,6 @@
 #!/bin/bash
 # usage: tools/keep_seeded.sh <ID>  -- copy a confirmed agent deliverable into /verif/seeded/<ID>/
-ID=$1; SRC=/tmp/wt/out/$ID; DST=/verif/seeded/$ID
+ID=$1; ROOT=${SEED_ROOT:-/tmp/wt}; SUF=${SEED_SUFFIX:-}; SRC=$ROOT/out/$ID; DST=/verif/seeded/$ID$SUF
 mkdir -p $DST
 cp $SRC/patch.diff $SRC/meta.json $DST/ 2>/dev/null
 cp $SRC/demo* $DST/ 2>/dev/null
